@@ -1355,4 +1355,35 @@ example : (run [] [.new 0 .none Option.none [("a", .many [.int 1, .int 2]), ("b"
      [("a", [.int 1, .int 2]), ("b", [.str "x", .str "x"]), ("c", [.none, .none]), ("d", [.int 1, .int 1])]] := by
   decide
 
+/-- the same history on the list-of-records machine: the records of the three tables (`abs_run_empty`) -/
+example : specRun [] [.new 0 .none Option.none [("a", .many [.int 1, .int 2]), ("b", .one (.str "x"))],
+      .mask 1 0 [false, false], .setitem 1 "c" (.many []), .concat 2 [0, 1], .setitem 2 "d" (.many [.int 1])] =
+    [⟨["a", "b"], [[.int 1, .str "x"], [.int 2, .str "x"]]⟩,
+     ⟨["a", "b", "c"], []⟩,
+     ⟨["a", "b", "c", "d"], [[.int 1, .str "x", .none, .int 1], [.int 2, .str "x", .none, .int 1]]⟩] := by
+  decide
+/-- outcomes of both machines on a history with a rejected assignment, a bad row index and a missing key -/
+example : specTrace [abs tbl] [.setitem 0 "c" (.many [.int 1]), .setitem 0 "c" (.many [.int 1, .int 2]),
+      .row 0 3, .col 0 "z", .len 0] = [.unit, .err .value, .err .index, .err .key, .val (natVal 3)] ∧
+    trace [tbl] [.setitem 0 "c" (.many [.int 1]), .setitem 0 "c" (.many [.int 1, .int 2]),
+      .row 0 3, .col 0 "z", .len 0] = [.unit, .err .value, .err .index, .err .key, .val (natVal 3)] :=
+  ⟨rfl, rfl⟩
+/-- two callables, the first reads the key the second defines: `b` is evaluated first, then `c = new b` -/
+example : tbl.call [] [("c", .idcol "b"), ("b", .isnone "a")] =
+    .ok [("a", [.int 1, .none, .int 3]), ("b", [.bool false, .bool true, .bool false]),
+         ("c", [.bool false, .bool true, .bool false])] := by rfl
+example : DepOrder [("b", Fn.isnone "a"), ("c", Fn.idcol "b")] := by
+  unfold DepOrder; simp [Fn.args]
+/-- a circular definition -/
+example : tbl.call [] [("a", .idcol "b"), ("b", .idcol "a")] = .error .value := by rfl
+/-- `update`: the assignment before the misfit stays -/
+example : tbl.update [("c", .one (.int 7)), ("d", .many [.int 1, .int 2]), ("e", .one .none)] =
+    (tbl ++ [("c", [.int 7, .int 7, .int 7])], some .value) := by rfl
+example : tbl.getTuple ["b", "a"] = .ok [[.str "x", .int 1], [.str "y", .none], [.flt 10, .int 3]] := by rfl
+example : tbl.getTuple ["b", "z"] = .error .key := by rfl
+/-- renaming two columns onto one name: first position, last value — on both machines -/
+example : abs (tbl.relabel ⟨Option.none, [("a", "k"), ("b", "k")]⟩) = ⟨["k"], [[.str "x"], [.str "y"], [.flt 10]]⟩ ∧
+    (abs tbl).relabel (Relabel.key ⟨Option.none, [("a", "k"), ("b", "k")]⟩) =
+      ⟨["k"], [[.str "x"], [.str "y"], [.flt 10]]⟩ := by decide
+
 end Pyg.Props.C01
